@@ -28,7 +28,7 @@ pub static PROP: PropDef = PropDef {
     run_tape,
     exhaustive: Some(exhaustive),
     run_direct: Some(run_direct),
-    min_classes: &[("invalid_sequence", 5000), ("reaches_body_multi", 5000), ("zero_length_data", 3000), ("ending_reset", 3000), ("ending_open", 3000), ("role_client", 5000), ("role_server", 5000), ("trailers_delivered", 1000)],
+    min_classes: &[("invalid_sequence", 5000), ("reaches_body_multi", 5000), ("zero_length_data", 3000), ("ending_reset", 3000), ("ending_open", 3000), ("role_client", 5000), ("split_after_part_of_the_body", 2000), ("role_server", 5000), ("trailers_delivered", 1000)],
     extra: None,
 };
 
@@ -204,7 +204,40 @@ macro_rules! body_and_trailers {
     }};
 }
 
-async fn server_app(net: Net, o: Shared<Obs>, sp: Spawner, split: bool) {
+/// read up to `$k` body chunks on the whole stream `$s` before it is split; evaluates to true when the body already ended
+/// there (the trailers are then asked for on the whole stream and nothing is left for the halves)
+macro_rules! chunks_before_split {
+    ($s:expr, $o:expr, $k:expr, $bail:expr) => {{
+        let mut ended = false;
+        for _ in 0..$k {
+            match $s.recv_data().await {
+                Ok(Some(mut b)) => {
+                    use bytes::Buf;
+                    let c = b.copy_to_bytes(b.remaining());
+                    $o.borrow_mut().body.extend_from_slice(&c);
+                }
+                Ok(None) => {
+                    $o.borrow_mut().body_end = Some(Ok(()));
+                    ended = true;
+                    break;
+                }
+                Err(e) => {
+                    $o.borrow_mut().body_end = Some(Err(err_info(&e)));
+                    $bail
+                }
+            }
+        }
+        if ended {
+            match $s.recv_trailers().await {
+                Ok(t) => $o.borrow_mut().trailers = Some(Ok(t.is_some())),
+                Err(e) => $o.borrow_mut().trailers = Some(Err(err_info(&e))),
+            }
+        }
+        ended
+    }};
+}
+
+async fn server_app(net: Net, o: Shared<Obs>, sp: Spawner, split: Option<u8>) {
     let mut conn: ServerConn = match h3::server::builder().send_grease(false).build(net.conn(Side::Server)).await {
         Ok(c) => c,
         Err(e) => {
@@ -227,7 +260,13 @@ async fn server_app(net: Net, o: Shared<Obs>, sp: Spawner, split: bool) {
                             return;
                         }
                     };
-                    if split {
+                    if let Some(k) = split {
+                        let ended = chunks_before_split!(s, o2, k, {
+                            std::future::pending::<()>().await;
+                        });
+                        if ended {
+                            std::future::pending::<()>().await;
+                        }
                         let (tx, mut rx) = s.split();
                         body_and_trailers!(rx, o2, {
                             std::future::pending::<()>().await;
@@ -252,7 +291,7 @@ async fn server_app(net: Net, o: Shared<Obs>, sp: Spawner, split: bool) {
     }
 }
 
-async fn client_app(net: Net, o: Shared<Obs>, sp: Spawner, split: bool) {
+async fn client_app(net: Net, o: Shared<Obs>, sp: Spawner, split: Option<u8>) {
     let (conn, mut sr): (ClientConn, SendReq) = match h3::client::builder().send_grease(false).build(net.conn(Side::Client)).await {
         Ok(x) => x,
         Err(e) => {
@@ -274,7 +313,31 @@ async fn client_app(net: Net, o: Shared<Obs>, sp: Spawner, split: bool) {
             return;
         }
     };
-    if split {
+    if let Some(k) = split.filter(|k| *k >= 1) {
+        // the response head and k body chunks on the whole stream, the rest on the receive half
+        let _ = s.finish().await;
+        match s.recv_response().await {
+            Ok(_) => o.borrow_mut().head = Some(Ok(())),
+            Err(e) => {
+                o.borrow_mut().head = Some(Err(err_info(&e)));
+                std::future::pending::<()>().await;
+            }
+        }
+        let ended = chunks_before_split!(s, o, k, {
+            std::future::pending::<()>().await;
+        });
+        if ended {
+            std::future::pending::<()>().await;
+        }
+        let (tx, mut rx) = s.split();
+        body_and_trailers!(rx, o, {
+            std::future::pending::<()>().await;
+        });
+        std::future::pending::<()>().await;
+        drop((sr, tx, rx));
+        return;
+    }
+    if split.is_some() {
         let (mut tx, mut rx) = s.split();
         let _ = tx.finish().await;
         match rx.recv_response().await {
@@ -307,7 +370,7 @@ async fn client_app(net: Net, o: Shared<Obs>, sp: Spawner, split: bool) {
     drop(sr);
 }
 
-fn case_json(server: bool, seq: &[Sym], ending: Ending, style: Style, sched: &[u16], split: bool) -> Value {
+fn case_json(server: bool, seq: &[Sym], ending: Ending, style: Style, sched: &[u16], split: Option<u8>) -> Value {
     json!({"split": split, "role": if server { "server" } else { "client" }, "seq": seq.iter().map(|s| format!("{s:?}")).collect::<Vec<_>>(), "ending": format!("{ending:?}"), "style": format!("{style:?}"), "sched": sched})
 }
 
@@ -319,7 +382,7 @@ fn err_matches(e: &ErrInfo, want: E) -> bool {
     }
 }
 
-pub fn run_case(server: bool, seq: &[Sym], ending: Ending, style: Style, sched: &[u16], split: bool, ctx: &mut Ctx) -> Verdict {
+pub fn run_case(server: bool, seq: &[Sym], ending: Ending, style: Style, sched: &[u16], split: Option<u8>, ctx: &mut Ctx) -> Verdict {
     ctx.eval();
     fastrand::seed(11);
     let net = Net::new();
@@ -526,8 +589,11 @@ pub fn run_case(server: bool, seq: &[Sym], ending: Ending, style: Style, sched: 
         ctx.class("trailers_delivered");
     }
     ctx.class(if server { "role_server" } else { "role_client" });
-    if split {
+    if split.is_some() {
         ctx.class("on_split_half");
+    }
+    if split.map(|k| k >= 1).unwrap_or(false) && !obs.body.is_empty() {
+        ctx.class("split_after_part_of_the_body");
     }
     if invalid || (reaches_body && seq.len() >= 2) {
         ctx.nontrivial(&(server, seq.to_vec(), ending, format!("{style:?}"), split));
@@ -566,7 +632,7 @@ fn exhaustive(ctx: &mut Ctx, shard: usize, nshards: usize) -> Verdict {
                 for ending in [Ending::Fin, Ending::Reset(0x10c), Ending::Open] {
                     for (k, style) in [Style::Eager, Style::Tiny, Style::Random].into_iter().enumerate() {
                         let sched = if style == Style::Random { prf_cells((code as u64) << 8 | (n as u64) << 4 | k as u64, 80) } else { Vec::new() };
-                        for split in [false, true] {
+                        for split in [None, Some(0u8), Some(1)] {
                             run_case(server, &seq, ending, style, &sched, split, ctx)?;
                             count += 1;
                         }
@@ -578,7 +644,7 @@ fn exhaustive(ctx: &mut Ctx, shard: usize, nshards: usize) -> Verdict {
     let _ = count;
     if shard == 0 {
         let per = |k: usize| (0..=maxn).map(|n| k.pow(n as u32) as u64).sum::<u64>();
-        ctx.subspace("all sequences up to the length bound x 3 endings x 3 schedule styles x 2 roles x whole stream / split() receive half", (per(11) + per(10)) * 18);
+        ctx.subspace("all sequences up to the length bound x 3 endings x 3 schedule styles x 2 roles x whole stream / split() before the body / split() after one body chunk", (per(11) + per(10)) * 27);
     }
     let _ = Tier::Quick;
     Ok(())
@@ -616,7 +682,7 @@ fn run_tape(tape: &[u16], ctx: &mut Ctx) -> Verdict {
         1 => Style::Tiny,
         _ => Style::Random,
     };
-    let split = t.chance(1, 3);
+    let split = if t.chance(2, 5) { Some(t.pick(4) as u8) } else { None };
     let sched: Vec<u16> = tape[t.position().min(tape.len())..].to_vec();
     run_case(server, &seq, ending, style, &sched, split, ctx)
 }
@@ -643,7 +709,7 @@ fn run_direct(d: &Value, ctx: &mut Ctx) -> Verdict {
         _ => Style::Random,
     };
     let sched: Vec<u16> = d["sched"].as_array().map(|a| a.iter().map(|x| x.as_u64().unwrap_or(0) as u16).collect()).unwrap_or_default();
-    run_case(server, &seq, ending, style, &sched, d["split"].as_bool().unwrap_or(false), ctx)
+    run_case(server, &seq, ending, style, &sched, d["split"].as_u64().map(|k| k as u8).or(if d["split"].as_bool() == Some(true) { Some(0) } else { None }), ctx)
 }
 
 pub fn _b(_: Bytes) {}
